@@ -509,6 +509,12 @@ def roundtrip_corpus(tier, seed):
             add(entry, GD.render(toks))
     payloads = list(strings(PAYLOAD_ALPHABET, 3 if tier == "thorough" else 2)) + \
         ["a\\", " a\\", 'a"', ' a"', '"""', 'a"""b', "\\\"\"\"", " \n a\n  b", "a\n\n b\n", "  a\n b", "\ta", "a\\\n", " \\", "\"", "\n", " "]
+    # line-structured payloads: every composition of 2..3 lines (empty, whitespace-only of several widths, indented, trailing blank) -
+    # what block-string indentation handling in the printer has to survive
+    lines = ["a", " a", "   a", "", " ", "    ", "\t", "a "]
+    for k in (2, 3):
+        for combo in itertools.product(lines, repeat=k):
+            payloads.append("\n".join(combo))
     for p in dict.fromkeys(payloads):
         forms = [quote(p), block_quote(p)]
         for f in forms:
